@@ -80,7 +80,9 @@ struct Content {
 std::string content_decode(const Bytes& data, Content& out);
 
 // re-encode in the canonical order used by the tool (header z x [y] c [C] M* P|Q* (f* s|a* r* h)* i N)
-Bytes content_encode(const Content& c);
+// disk_order: map indexes in the order of the data disks in the configuration file (the tool writes the per-disk
+// sections in that order); default = order of the 'M' records
+Bytes content_encode(const Content& c, const std::vector<uint32_t>* disk_order = nullptr);
 
 uint32_t crc32c_ref(uint32_t crc, const void* data, size_t n); // raw update (no pre/post inversion)
 uint32_t crc32c_of(const void* data, size_t n);                 // standard CRC-32C
